@@ -256,6 +256,9 @@ macro_rules! fixed_exec {
 }
 
 fixed_exec!(exec_p8, P8E0, P8, u8, i8, p, rp, {
+    ("to_p8", "m") => rp(p(0)),
+    ("to_p16", "m") => Some(vec![Val::U(P16E1::from_p8e0(p(0)).to_bits() as u64)]),
+    ("to_p32", "m") => Some(vec![Val::U(P32E2::from_p8e0(p(0)).to_bits() as u64)]),
     ("exp", "m") => rp(<P8E0>::exp(p(0))),
     ("ln", "m") => rp(<P8E0>::ln(p(0))),
     ("exp", "nt") => rp(Float::exp(p(0))),
@@ -265,6 +268,9 @@ fixed_exec!(exec_p8, P8E0, P8, u8, i8, p, rp, {
 });
 
 fixed_exec!(exec_p16, P16E1, P16, u16, i16, p, rp, {
+    ("to_p16", "m") => rp(p(0)),
+    ("to_p8", "m") => Some(vec![Val::U(P8E0::from_p16e1(p(0)).to_bits() as u64)]),
+    ("to_p32", "m") => Some(vec![Val::U(P32E2::from_p16e1(p(0)).to_bits() as u64)]),
     ("exp", "m") => rp(<P16E1>::exp(p(0))),
     ("exp2", "m") => rp(<P16E1>::exp2(p(0))),
     ("ln", "m") => rp(<P16E1>::ln(p(0))),
@@ -286,6 +292,9 @@ fixed_exec!(exec_p16, P16E1, P16, u16, i16, p, rp, {
 });
 
 fixed_exec!(exec_p32, P32E2, P32, u32, i32, p, rp, {
+    ("to_p32", "m") => rp(p(0)),
+    ("to_p8", "m") => Some(vec![Val::U(P8E0::from_p32e2(p(0)).to_bits() as u64)]),
+    ("to_p16", "m") => Some(vec![Val::U(P16E1::from_p32e2(p(0)).to_bits() as u64)]),
     ("sin", "m") => rp(<P32E2>::sin(p(0))),
     ("cos", "m") => rp(<P32E2>::cos(p(0))),
     ("tan", "m") => rp(<P32E2>::tan(p(0))),
